@@ -36,3 +36,7 @@ CHECKS['C20'] = ('model_checking',
     'exhaustive enumeration of complete sub-spaces: all 16384 styles (8x8 colours x 256 modifier subsets) x texts x specs; all texts up to length 3/4 over an 8-character class alphabet x 8 format specs x 7 styles; every route (str, format, f-string, .fmt, call, apply, len, repr round trip) with colour on and off; all 54 colour-policy combinations; explicit-state BFS over the chainable modifier methods (same state by different orders must render equally)',
     'trusted: the SGR-stripping regex used as oracle; unicode represented by class representatives',
     'exhaustive enumeration of bounded input/configuration spaces + explicit-state BFS with differential oracle')
+CHECKS['C17'] = ('exploration',
+    'bounded exhaustive enumeration: every builtin name x 6 argument tuples x 17 syntactic routes through is_eval_safe/safe_eval and through constants and alerts in real parses, executed under an interpreter audit hook with impure builtins replaced by recording stubs (a leak is observed, never executed); a depth-2 BFS of the non-dunder attribute graph from every context value; every history of length 2-3 over a pool of constant grammars in pristine forked children (names of one parse invisible to the next)',
+    'trusted: the explicit list of impure builtins and forbidden audit events; routes are a finite menu of syntactic forms',
+    'exhaustive enumeration of a finite expression family under fault-observing instrumentation + exhaustive short histories')
